@@ -304,7 +304,9 @@ func c09Sched(c *vrep.Ctx) {
 	for i, in := range inputs {
 		want[i] = vFmt(solo.Match(in))
 	}
-	c.R.Rule = fmt.Sprintf("controlled scheduler on vinstr-instrumented v2 code (yield points at function entries and loop heads): %d threads each calling Match/MatchFrom on ONE shared classifier (two near-identical documents so that calls score the same document), inputs %v; every interleaving within %s bound %d; each call must return its solo result, the deep state hash must be unchanged, no panic; states = distinct (thread positions) signatures seen, transitions = scheduling decisions", nthreads, pick, c.Param("policy", "delay"), budget)
+	c.R.Rule = "controlled scheduler on vinstr-instrumented v2 code (yield points at function entries, loop heads and around every call into go-diff): 2-3 threads each calling Match/MatchFrom on ONE shared, cold classifier (two near-identical documents so that calls score the same document); every interleaving within the stated delay/preemption bound; each call must return its solo result, the deep state hash (all classifier fields and package variables) must be unchanged, no panic; states = explored schedules, transitions = scheduling decisions; non-trivial = schedules with at least two simultaneously enabled threads and more context switches than threads"
+	c.Bound("inputs_per_thread", fmt.Sprint(pick))
+	c.Assume("go-diff, regexp and the runtime are atomic steps for the scheduler (yield points surround the calls into go-diff); the memory-model half is decided by c09_frozen")
 	c.Bound("threads", nthreads)
 	c.Bound(c.Param("policy", "delay")+"_bound", budget)
 	h0 := vStateHash(mk(), false)
